@@ -33,18 +33,18 @@ package keyvalue
 //@ func (*PersistRestorer).Staged
 //@   requires pr != nil && s != nil
 //@   modifies *
-//@   callsite dbPutSource : s == old(s) && len(keys) == 2 + len(srcParams(s).Parts) &&
+//@   callsite dbPutSource : isbatch(db) && s == old(s) && len(keys) == 2 + len(srcParams(s).Parts) &&
 //@     ((keys[0] == "staging:state" && keys[1] == "phase") || (keys[0] == "phase" && keys[1] == "staging:state")) && allSigKeys(keys, 2, len(srcParams(s).Parts))
 
 //@ func (*PersistRestorer).SigAdded
 //@   requires pr != nil && s != nil
 //@   modifies *
-//@   callsite dbPutSource : s == old(s) && len(keys) == 1 && keys[0] == sigKeyStr(idx, len(srcParams(s).Parts))
+//@   callsite dbPutSource : isbatch(db) && s == old(s) && len(keys) == 1 && keys[0] == sigKeyStr(idx, len(srcParams(s).Parts))
 
 //@ func (*PersistRestorer).Enabled
 //@   requires pr != nil && s != nil
 //@   modifies *
-//@   callsite dbPutSource : s == old(s) && len(keys) == 3 + len(srcParams(s).Parts) && keys[0] == "staging:state" && keys[1] == "current" && keys[2] == "phase" &&
+//@   callsite dbPutSource : isbatch(db) && s == old(s) && len(keys) == 3 + len(srcParams(s).Parts) && keys[0] == "staging:state" && keys[1] == "current" && keys[2] == "phase" &&
 //@     allSigKeys(keys, 3, len(srcParams(s).Parts))
 
 // ---------------------------------------------------------------------------
@@ -76,7 +76,7 @@ package keyvalue
 //@ func (*PersistRestorer).ChannelCreated
 //@   requires pr != nil && s != nil
 //@   modifies *
-//@   callsite dbPutSource : len(keys) == 5 + len(srcParams(s).Parts) && keys[0] == "current" && keys[1] == "index" && keys[2] == "params" && keys[3] == "phase" &&
+//@   callsite dbPutSource : isbatch(db) && len(keys) == 5 + len(srcParams(s).Parts) && keys[0] == "current" && keys[1] == "index" && keys[2] == "params" && keys[3] == "phase" &&
 //@     keys[4] == "staging:state" && allSigKeys(keys, 5, len(srcParams(s).Parts))
 //@   ensures result == nil ==> kvput("parent") && kvput("peers")
 //@   loop 1
@@ -92,3 +92,9 @@ package keyvalue
 //@     invariant forall k int :: 0 <= k && k < $i ==> kvdel(keys[k])
 //@   loop 2
 //@     invariant forall k int :: 0 <= k && k < len(keys) ==> kvdel(keys[k])
+
+// PhaseChanged stores the phase (one key, written directly).
+//@ func (*PersistRestorer).PhaseChanged
+//@   requires pr != nil && s != nil
+//@   modifies *
+//@   callsite dbPut : key == "phase"
